@@ -428,6 +428,26 @@ func (c *c14) plan(seed uint64, tier string, worker, workers, idx int) *Plan {
 				ops = append(ops, Op{Kind: "readarr", Arr: 0})
 			}
 		}
+		if g.collideOn && len(g.builtinDup) > 0 && r.Chance(1, 2) {
+			// a namesake with offspring: an extension on the root that carries a built-in
+			// format's type and file extension (the root's own among them), reachable through
+			// an alias of its own only, and a sub-extension registered through that alias;
+			// both accept one of the run's inputs
+			in := universe[r.Intn(len(universe))]
+			x := in.Bytes()
+			nm := g.builtinDup[r.Intn(len(g.builtinDup))]
+			if lb := lib.LB(nm); !lb.Nil && len(lb.Chain) > 0 {
+				e1 := g.accepting("", x)
+				e1.Mime, e1.Extension = nm, lb.Chain[0].Ext
+				alias := fmt.Sprintf("x-verif/n%d", e1.ID)
+				e1.Aliases = []string{alias}
+				e2 := g.acceptingOn("", e1, x)
+				e2.Parent = alias
+				ops = append(ops, Op{Kind: "extend", Ext: e1}, Op{Kind: "extend", Ext: e2}, Op{Kind: "detect", In: &in})
+				ops = battery(ops, r.Range(2, len(universe)+1), false)
+				ops = append(ops, Op{Kind: "lookup", Name: alias, Ext: e1}, Op{Kind: "lookup", Name: e2.Mime, Ext: e2})
+			}
+		}
 		p.Tasks = [][]Op{ops}
 		return p
 	}
